@@ -20,7 +20,7 @@ CHECKS = {
  'C05': dict(level='exploration', ref='3/C05', technique='TLA+ law (Laws!ConcatLaw with line shift) judged by TLC on recorded parses (trace validation)',
    text='Every recorded triple (parse A, parse B, parse A+blank+B) is judged by TLC against the concatenation law including line numbers; pairs are sampled.',
    note='Trusted: token projection in harness/proj.py; side conditions are decided from the real parse of A and B alone, as the property phrases them.'),
- 'C06': dict(level='model_checking', ref='3/C06', technique='TLA+ model of the CommonMark 0.30 delimiter algorithm (Emphasis.tla) explored exhaustively by TLC; every behaviour replayed into the real parser (spec -> code); InlineLinks.tla (brackets interleaved with the algorithm) and InlineScan.tla (escapes, code spans, autolinks, raw HTML tags protecting what they cover, EXTENDS Emphasis) extend it',
+ 'C06': dict(level='model_checking', ref='3/C06', technique='TLA+ model of the CommonMark 0.30 delimiter algorithm (Emphasis.tla) explored exhaustively by TLC; every behaviour replayed into the real parser (spec -> code); InlineLinks.tla (brackets interleaved with the algorithm) and InlineScan.tla (escapes, code spans, autolinks, all forms of raw HTML and character references protecting what they cover, EXTENDS Emphasis) extend it; LinkSyntax.tla and TagSyntax.tla read link destinations / titles and tag attributes deeper (every tail over small alphabets)',
    text='TLC runs the delimiter algorithm on every string over {a,space,*,_,.} up to length 7/9 and over {a,*},{a,_} up to 12/14, checks laminarity and stack invariants on the model, and exports the expected structure; the harness compares the real HTML for each string. Random wide-alphabet strings are judged through the same model in batch. InlineScan adds every string up to length 5/6 over four raw alphabets with backslash, backtick, angle brackets, colon, slash, underscore (TLC checks that the scanned segments tile the text and that no emphasis boundary falls inside a protected segment).',
    note='Trusted: the transcription of the CommonMark algorithm in Emphasis.tla (validated against the corpus through the unchanged parser and by review), the class table for wide characters, observation through an ATX heading.'),
  'C07': dict(level='model_checking', ref='3/C07', technique='TLA+ typing model (DocGen.tla, definitions and references enabled) with first-definition-wins resolution in the specification; exhaustive placements within bounds + simulation; replayed into the real parser (spec -> code); plus the definition alphabets of BlockParse.tla (definitions read from complete paragraphs: destination or title on the next line, unclosed titles, underlines and block starts below a definition, escapes and character references), HTML and definition table compared; plus RefLinks.tla (the reference forms as the procedure look-for-link-or-image resolves them, every text up to 7/8 characters over a bracket alphabet, replayed into the real parser)',
